@@ -53,9 +53,21 @@ func parserImports(src []byte, mode parser.Mode) ([]string, error) {
 	return out, nil
 }
 
+// otherInput is read between obtaining a result and inspecting it: what ReadImports returned must stay what it was
+// when a later call reads a different file.
+var otherInput = []byte("// Copyright. A different file, read later.\n\npackage later /* " + strings.Repeat("z", 300) + " */\n\nimport (\n\t\"later/one\"\n\tl2 \"later/two\"\n)\n\nvar later = 1\n")
+
 func readImports(src []byte, strict bool) (data []byte, list []string, err error, fail *vt.Fail) {
 	fail = vt.Guard("readimports-panic", func() *vt.Fail {
 		data, err = imports.ReadImports(bytes.NewReader(append([]byte(nil), src...)), strict, &list)
+		snapshot := append([]byte(nil), data...)
+		names := append([]string(nil), list...)
+		var other []string
+		imports.ReadImports(bytes.NewReader(otherInput), true, &other)
+		imports.ReadImports(bytes.NewReader(otherInput), false, &other)
+		if !bytes.Equal(data, snapshot) || !eqStrings(list, names) {
+			return vt.Failf("result-changed-by-later-call", "ReadImports on %q returned %q %q, which turned into %q %q after ReadImports was called on another input", src, snapshot, names, data, list)
+		}
 		return nil
 	})
 	return
